@@ -392,6 +392,7 @@ class Driver:
             'final_pool': getattr(self, 'last_pool', None),
             'cmd_results': self.cmd_results,
             'extra': self.extra,
+            'db_stmts': getattr(getattr(self, 'db_counter', None), 'n', None),
         }
         for m in self.monitors:
             if hasattr(m, 'summary'):
